@@ -228,7 +228,24 @@ def modestream(kind, k, iv, ctr, seg, direction, pad, bs, d):
             m = pyaes_aes.AESModeOfOperationCTR(key, pyaes_aes.Counter(int(ctr)))
         out = _io.BytesIO()
         f = blockfeeder.decrypt_stream if direction == "dec" else blockfeeder.encrypt_stream
-        f(m, _io.BytesIO(data), out, int(bs), pad)
+        import zlib
+        how = zlib.crc32(data + key) % 3
+        if how == 0:
+            src = _io.BytesIO(data)
+        else:
+            # a stream that, like a pipe or a socket, may return fewer bytes than asked for before the end of the data
+            class Short:
+                def __init__(self, b, sizes):
+                    self.b, self.sizes, self.i = b, sizes, 0
+
+                def read(self, n=-1):
+                    k = self.sizes[self.i % len(self.sizes)]
+                    self.i += 1
+                    k = k if n is None or n < 0 else min(n, k)
+                    piece, self.b = self.b[:k], self.b[k:]
+                    return piece
+            src = Short(data, [1, 7, 16, 3] if how == 1 else [10, 30, 60, 5, 64])
+        f(m, src, out, int(bs), pad)
         return "ok " + (hx(out.getvalue()) or "-")
     except Exception as e:
         return "err " + type(e).__name__
